@@ -27,6 +27,22 @@ PROPS = {
     "C06": dict(_rt("rebuilt text of every enumerated program with line-level comments is a fixed point"), bounded="bounded.b_c06"),
     "C15": dict(_rt("deep snapshot of the tree (incl. Scope.owner, list identities) equal before/after rebuild; repeated rebuild equal"), bounded="bounded.b_c15"),
     "C18": dict(_rt("lexical scan of every inter-token gap of the rebuilt text"), bounded="bounded.b_c18"),
+    "C04": dict(level="exploration", bounded="bounded.b_c04", trusted_base=TRUSTED_COMMON + ["tree-sitter-nix as independent tokenizer / extent oracle"],
+                technique="contracts on the real code: frames of the edit functions by pvc where reached; text locality decided by a run-time-checked postcondition on set_value/remove_value over an enumerated document x path x value space (labelled bounded)",
+                text="outside the addressed binding (value extent / inserted lines / removed binding with its trivia) input and output bytes are equal",
+                note="bounded; see DESIGN.md C04"),
+    "C05": dict(level="exploration", bounded="bounded.b_c05", trusted_base=TRUSTED_COMMON + ["reference model of the documented edit semantics (bounded/edits.py)", "independent CST reader (bounded/readers.py)"],
+                technique="contracts on the real code: path tokenizer/formatter proved by pvc; edit results decided by a run-time-checked postcondition (attribute tree read from the output CST equals the reference model) over enumerated single edits and edit sequences (labelled bounded)",
+                text="every successful edit emits valid Nix whose attribute tree equals the reference model; refusals only for the model's reasons",
+                note="bounded; see DESIGN.md C05"),
+    "C08": dict(level="exploration", bounded="bounded.b_c08", trusted_base=TRUSTED_COMMON,
+                technique="contracts on the real code: main() exceptional postconditions by pvc; document unchanged after a refused edit decided by run-time-checked postconditions over the enumerated edit space (labelled bounded)",
+                text="a refused edit raises KeyError/ValueError, leaves rebuild() unchanged, and later edits behave as on a fresh parse",
+                note="bounded; see DESIGN.md C08"),
+    "C19": dict(level="exploration", bounded="bounded.b_c19", trusted_base=TRUSTED_COMMON,
+                technique="contracts on the real code: laws checked as run-time postconditions on alternative edit sequences over the enumerated document space (labelled bounded)",
+                text="idempotence, set/rm restoration, rm/set tree restoration and commutation hold on every enumerated document",
+                note="bounded; see DESIGN.md C19"),
     "C07": dict(level="fault_enumeration", bounded="bounded.b_c07", trusted_base=TRUSTED_COMMON + ["tree-sitter-nix 0.1.0 decides what a syntax error is"],
                 technique="contracts on the real code: CLI verdict/exit code proved by pvc on main(); pass-through and refusal decided by run-time-checked postconditions over an exhaustive fault enumeration (labelled bounded)",
                 text="every damaged text (token deleted/duplicated, delimiter inserted, truncated at every byte, whitespace-wrapped) is passed through byte for byte, fails `nima test`, and is refused by set/rm and as a VALUE",
@@ -36,7 +52,7 @@ PROPS = {
                 text="only documented error types escape parse+rebuild on valid/damaged/UTF-8 texts; rebuild-call counts stay polynomial on 19 nesting families",
                 note="CPU time itself, tree-sitter on arbitrary bytes and Python recursion limits are not addressed (DESIGN.md C20 N/A part)"),
     "C09": dict(
-        level="proof", bounded=None, trusted_base=TRUSTED_COMMON,
+        level="proof", bounded="bounded.b_c09", trusted_base=TRUSTED_COMMON,
         technique="deductive verification (pvc VC generation over the real source + z3/cvc5) of the selector/layer functions",
         text="selector splitting proved for all strings against the leading-@ characterisation",
         note="see evidence.assumptions and trusted_base",
